@@ -98,3 +98,96 @@ CHECK = store.StoreCheck(
          "oracle relating pre-state, event and post-state",
 )
 CHECK.export(globals())
+
+
+# ---------------------------------------------------------------------------------------------------
+# One-process histories.  The BFS above reaches every state through "restore the store, submit one event", i.e. with a writer that
+# has just started; whatever the relay keeps in memory between events (a cache of newest versions, say) only shows in histories
+# that run in ONE process without a restore in between: every arrival order of every subset of the versions of one address
+# (plus the deletion of the newest version in between), behind a bystander, judged step by step with the same frame-condition oracle.
+_base_cases = CHECK.cases
+_base_run_case = CHECK.run_case
+_base_coverage = CHECK.coverage
+FAMILIES = {
+    "r": ("U9a", ["a_r_t5", "a_r_t10", "a_r_t20", "a_r_t20x"], "a_k1_t10"),
+    "k0": ("U9a", ["a_k0_t5", "a_k0_t10", "a_k0_t20"], "b_r_t10"),
+    "p_a": ("U9b", ["a_p_a_t10", "a_p_a_t20", "a_p_ab_t10", "a_p_abs_t10"], "b_p_a_t15"),
+}
+
+
+def cases(tier):
+    out = list(_base_cases(tier))
+    for backend in ("sql", "kv"):
+        for fam in FAMILIES:
+            out.append((backend, "linear", [fam], 0))
+    return out
+
+
+def _linear_histories(fam):
+    import itertools
+
+    un, versions, bystander = FAMILIES[fam]
+    out = []
+    for n in range(2, len(versions) + 1):
+        for sub in itertools.permutations(versions, n):
+            out.append([bystander] + list(sub))
+            if n <= 3:
+                out.append([bystander] + list(sub) + [sub[0]])  # the first one once more at the end
+    return un, out
+
+
+def run_linear(case):
+    from .. import seq
+
+    backend, _, (fam,), _ = case
+    un, hists = _linear_histories(fam)
+    uni = CHECK.U()[un]
+    sess = seq.session(backend)
+    judge = oracle(backend, uni, sess)
+    viol = []
+    cid = "%s|linear|%s" % (backend, fam)
+    digests = set()
+    steps = 0
+    for hist in hists:
+        sess.reset()
+        pre = sess.dump()
+        done = []
+        for nm in hist:
+            r = sess.submit(uni[nm])
+            post = sess.dump()
+            steps += 1
+            for v in judge(tuple(done), pre, nm, r, post):
+                v = dict(v)
+                v["case"] = cid
+                v["sig"] = "%s|%s" % (",".join(done + [nm]), v.get("sig", ""))
+                v["detail"] = "%s | one-process history %s" % (v.get("detail", ""), ",".join(done + [nm]))
+                viol.append(v)
+            done.append(nm)
+            pre = post
+        digests.add(store.sdigest(pre))
+    return {"id": cid, "viol": viol, "outcome": sorted(digests), "outcome_is_set": True, "evals": steps, "states": len(digests), "transitions": steps,
+            "nontrivial": len(digests) > 1, "desc": describe(case), "extra": {"one_process_histories": len(hists), "one_process_steps": steps},
+            "sample": {"mode": "linear", "backend": backend, "family": fam, "histories": len(hists)}}
+
+
+def run_case(case):
+    if case[1] == "linear":
+        return run_linear(case)
+    return _base_run_case(case)
+
+
+def coverage(tier, agg):
+    c = _base_coverage(tier, agg)
+    c["rule"] += " | one-process histories: every arrival order of every subset (>= 2) of the versions of one address (%s), each behind a bystander and " \
+                 "the shorter ones with the first version re-sent at the end, run without restoring the store in between (what the relay keeps in " \
+                 "memory between events is then part of the state), same oracle at every step" % ", ".join("%s: %d versions" % (k, len(v[1])) for k, v in FAMILIES.items())
+    return c
+
+
+def replay(desc):
+    case = (desc["backend"], desc["universe"], desc["prefix"], desc["depth"])
+    r = run_case(case)
+    for v in r["viol"][:20]:
+        print(v["clause"], v["detail"])
+    return r["viol"]
+
